@@ -19,7 +19,7 @@ CHUNK = 50
 PROBES = ['same_object_abandoned_in_logs', 'tag_straddles_buffer_boundary', 'large_capture', 'special_record', 'partial_tag_prefix_before_tag', 'earlier_dump_other_parser_object', 'multi_chunk', 'empty_chunk', 'cut_inside_window', 'cut_inside_lookup', 'decoy_tag_in_stackshot', 'gap_before_event_tag',
           'header_plist_unaligned', 'two_kext_blocks', 'two_dyld_blocks', 'two_code_blocks', 'two_log_blocks', 'unpadded_last_block',
           'log_extends_tables', 'log_without_pid', 'strings_block_before_logs', 'xml_plists', 'no_blocks', 'unknown_block',
-          'log_with_tai', 'cli_run', 'two_listings_of_one_object_under_way', 'log_argument_not_available', 'log_message_several_segments']
+          'log_with_tai', 'cli_run', 'two_listings_of_one_object_under_way', 'two_listings_read_in_turns', 'log_blocks_share_stored_objects', 'log_argument_not_available', 'log_message_several_segments']
 RULE = ('one run = one simulated v3 dump (1..3 SimKernel threads, 0..60 records in 1..5 chunks, thread map with duplicate keys, '
         'seeded metadata/log blocks) parsed by the real KdBufParser and by PyKdebugParser.kevents/os_log_events; non-trivial = '
         '>= 2 event chunks or >= 2 blocks of one list-valued kind or >= 1 log that extends the tables; distinct = distinct '
@@ -84,6 +84,8 @@ def generate(rng, index, tier):
         scn['same_object_earlier'] = {'writer': worlds.gen_writer(rng, 3, threads, 3, logs=True), 'after': rng.randint(0, 12)}
         if rng.chance(0.4):
             scn['same_object_earlier'].update({'overlap': True, 'after': rng.randint(1, 2)})
+            if rng.chance(0.5):
+                scn['same_object_earlier']['turns'] = [rng.randrange(2) for _ in range(rng.randint(4, 40))]
         scn['api'] = 'kd'
     if nrec >= 2 and rng.chance(0.12):
         scn['align'] = rng.randint(1, 7)       # place a chunk boundary tag 1..7 bytes before a multiple of the I/O buffer size
@@ -203,6 +205,8 @@ def execute(scn):
         bump('probe:no_blocks')
     if 'unknown' in kinds:
         bump('probe:unknown_block')
+    if any(b.get('share') and b['kind'] == 'logs' and len(b['payload']['Events']) >= 2 for b in blocks) and w.get('plist_fmt', 'binary') == 'binary':
+        bump('probe:log_blocks_share_stored_objects')
     viols = []
     hist = []
 
@@ -216,6 +220,7 @@ def execute(scn):
     tp, pn = {}, {}
     tables_after_kevents = None
     overlap = False
+    attributes_judged = True
     if scn.get('api') == 'pk':
         pk = tool.pk_mod.PyKdebugParser()
         tp, pn = pk.threads_pids, pk.pids_names
@@ -256,9 +261,33 @@ def execute(scn):
                 x = next(jit, None)
                 if x is not None:
                     items.append(x)
-                common.drain(scn_hold)
-                rest, exc = common.drain(jit)
-                items += rest
+                if so.get('turns'):
+                    # ... read in turns, one item at a time, in a seeded order (each listing resolves through its own dump)
+                    bump('probe:two_listings_read_in_turns')
+                    turns = list(so['turns'])
+                    done_j = x is None
+                    done_e = False
+                    while not done_j:
+                        c = turns.pop(0) if turns else 0
+                        if c and not done_e:
+                            try:
+                                if next(scn_hold, None) is None:
+                                    done_e = True
+                            except Exception:
+                                done_e = True
+                        else:
+                            x = next(jit, None)
+                            if x is None:
+                                done_j = True
+                            else:
+                                items.append(x)
+                    attributes_judged = done_e        # (the earlier listing may still dispatch its blocks later)
+                else:
+                    common.drain(scn_hold)
+                    rest, exc = common.drain(jit)
+                    items += rest
+            except common.SimBudgetExceeded:
+                raise
             except Exception as e:
                 exc = e
         else:
@@ -342,7 +371,7 @@ def execute(scn):
             d2 = {k: (pn.get(k), m1[1].get(k)) for k in set(pn) | set(m1[1]) if pn.get(k) != m1[1].get(k)}
             bad('tables', 'threads' if d else 'names', 'tid->(got, want) %r; pid->(got, want) %r' % (d, d2))
         # attributes (container parser only)
-        if kd is not None:
+        if kd is not None and attributes_judged:
             def payloads(kind):
                 return [worlds.unjson(b['payload']) for b in blocks if b['kind'] == kind]
             for kind, attr in (('processes', 'processes'), ('images', 'images')):
